@@ -113,8 +113,12 @@ def r06_2_ids_and_aliases(ctx: Ctx) -> RuleResult:
     for ret, _ in outs:
         if ret is not None and ret[0] == "call" and ret[1].endswith("create_zone") and len(ret[2]) == 2:
             a0, a1 = ret[2]
-            if a0 == sym("ID") and a1[0] == "call" and "get" in a1[1] and "canonical_id_map" in show(a1):
-                good = True
+            if a0 == sym("ID") and a1[0] == "call" and "get" in a1[1]:
+                recv = str(a1[1]).rsplit(".", 1)[0]
+                # the map may have been read into a local first
+                local_defs = [unparse(n.value) for n in own_nodes(h.node) if isinstance(n, ast.Assign) and len(n.targets) == 1 and isinstance(n.targets[0], ast.Name) and n.targets[0].id == recv]
+                if "canonical_id_map" in show(a1) or (len(local_defs) == 1 and local_defs[0].endswith("canonical_id_map")):
+                    good = True
     if good:
         rr.ok({"for_id": "create_zone(id_, canonical_id_map.get(id_))"})
     else:
